@@ -149,3 +149,25 @@ class Frozen:
 
 def func(x=None):
     return x
+
+
+# a class whose reduction is registered with copyreg (pickle protocol 2 gives the dispatch table priority over __reduce_ex__)
+import copyreg
+
+
+class Registered:
+    def __init__(self, key, cache=None):
+        self.key = key
+        self.cache = cache if cache is not None else ["filled", "lazily"]
+
+
+def make_registered(key):
+    return Registered(key, cache=[])
+
+
+def _reduce_registered(obj):
+    # the cache is deliberately not part of the reduction
+    return make_registered, (obj.key,)
+
+
+copyreg.pickle(Registered, _reduce_registered)
